@@ -67,10 +67,18 @@ Definition post (e : entry) : lstate :=
   | EWrite => (e_owner e, e_depth e, S (e_ver e))
   end.
 
-(* an Acq finds the lock free or owned by the caller; everything else is done by the owner *)
+Definition lock_ok (st : lstate) : Prop :=
+  match st with
+  | (None, d, _) => d = 0
+  | (Some _, d, _) => 0 < d
+  end.
+
+(* an Acq finds the lock free or owned by the caller; a Rel and a Write are done by the owner;
+   a Read may be done by anybody (it does not touch the lock) *)
 Definition ok_entry (e : entry) : Prop :=
   match e_ev e with
   | EAcq => (e_owner e = None /\ e_depth e = 0) \/ (e_owner e = Some (e_tid e) /\ 0 < e_depth e)
+  | ERead => lock_ok (pre e)
   | _ => e_owner e = Some (e_tid e) /\ 0 < e_depth e
   end.
 
@@ -99,27 +107,12 @@ Proof.
   intros H K. apply vtrace_app. exists (pre e). split; [exact H|]. cbn. auto.
 Qed.
 
-Definition lock_ok (st : lstate) : Prop :=
-  match st with
-  | (None, d, _) => d = 0
-  | (Some _, d, _) => 0 < d
-  end.
-
-Lemma ok_entry_pre e : ok_entry e -> lock_ok (pre e).
-Proof.
-  unfold ok_entry, lock_ok, pre. destruct (e_ev e); intros H.
-  - destruct H as [[-> ->]|[-> H]]; [reflexivity|exact H].
-  - destruct H as [-> H]; exact H.
-  - destruct H as [-> H]; exact H.
-  - destruct H as [-> H]; exact H.
-Qed.
-
 Lemma ok_entry_post e : ok_entry e -> lock_ok (post e).
 Proof.
-  unfold ok_entry, lock_ok, post. destruct (e_ev e); intros H.
+  unfold ok_entry, lock_ok, post, pre. destruct (e_ev e); intros H.
   - lia.
   - destruct H as [_ H]. destruct (e_depth e) as [|[|d]]; lia.
-  - destruct H as [-> H]; exact H.
+  - exact H.
   - destruct H as [-> H]; exact H.
 Qed.
 
@@ -137,43 +130,43 @@ Proof.
   - apply (IH (post e)). tauto.
 Qed.
 
-(* what an ok entry executed while t owns the lock looks like *)
-Lemma ok_entry_owned e t : ok_entry e -> e_owner e = Some t -> e_tid e = t /\ 0 < e_depth e.
+(* what an ok entry executed while t owns the lock looks like: anything but a Read is t's own *)
+Lemma ok_entry_owned e t : ok_entry e -> e_owner e = Some t -> 0 < e_depth e /\ (e_ev e <> ERead -> e_tid e = t).
 Proof.
-  unfold ok_entry. intros H O. rewrite O in H. destruct (e_ev e).
+  unfold ok_entry, lock_ok, pre. intros H O. rewrite O in H. destruct (e_ev e).
   - destruct H as [[H _]|[H K]]; [discriminate|]. injection H as <-. auto.
   - destruct H as [H K]. injection H as <-. auto.
-  - destruct H as [H K]. injection H as <-. auto.
+  - split; [exact H|congruence].
   - destruct H as [H K]. injection H as <-. auto.
 Qed.
 
 Definition is_write (e : entry) : bool := ev_eqb (e_ev e) EWrite.
 Definition wcount (l : list entry) : nat := length (filter is_write l).
 
-(* MUTUAL EXCLUSION, version accounting: from a state in which t owns the lock,
-   as long as t does not release it completely, every entry is t's, is executed
-   with t as the owner, and the version moves only by t's own Writes *)
+(* MUTUAL EXCLUSION, version accounting: from a state in which t owns the lock, as long as t does
+   not release it completely, the lock stays t's, every entry other than a Read is t's own, and
+   the version moves only by t's own Writes *)
 Lemma section_owned t : forall l2 d v e l3 st',
   0 < d ->
   vtrace (Some t, d, v) (l2 ++ e :: l3) st' ->
   (forall x, In x l2 -> ~ is_orel t x) ->
-  (forall x, In x l2 -> e_tid x = t /\ e_owner x = Some t) /\
-  e_tid e = t /\ e_owner e = Some t /\ 0 < e_depth e /\ e_ver e = v + wcount l2.
+  (forall x, In x l2 -> e_owner x = Some t /\ (e_ev x <> ERead -> e_tid x = t)) /\
+  e_owner e = Some t /\ (e_ev e <> ERead -> e_tid e = t) /\ 0 < e_depth e /\ e_ver e = v + wcount l2.
 Proof.
   induction l2 as [|x l2 IH]; intros d v e l3 st' Hd V NR; cbn [app vtrace] in V.
   - destruct V as [P [K _]]. unfold pre in P. injection P as Po Pd Pv.
     destruct (ok_entry_owned e t K Po) as [A B].
     split; [intros x []|]. cbn. repeat split; try assumption. lia.
   - destruct V as [P [K V]]. unfold pre in P. injection P as Po Pd Pv.
-    destruct (ok_entry_owned x t K Po) as [A B].
+    destruct (ok_entry_owned x t K Po) as [B A].
     assert (NRx : ~ is_orel t x) by (apply NR; left; reflexivity).
     assert (Hpost : exists d', 0 < d' /\ post x = (Some t, d', v + (if is_write x then 1 else 0))).
     { unfold post, is_write. unfold is_orel in NRx. destruct (e_ev x) eqn:Ev; cbn [ev_eqb].
-      - exists (S (e_depth x)). rewrite A, Pv. split; [lia|f_equal; lia].
+      - exists (S (e_depth x)). rewrite A, Pv by discriminate. split; [lia|f_equal; lia].
       - destruct (e_depth x) as [|[|dd]] eqn:D.
         + lia.
-        + exfalso. apply NRx. auto.
-        + exists (S dd). rewrite A, Pv. split; [lia|f_equal; lia].
+        + exfalso. apply NRx. split; [apply A; discriminate|auto].
+        + exists (S dd). rewrite A, Pv by discriminate. split; [lia|f_equal; lia].
       - exists (e_depth x). rewrite Po, Pv. split; [lia|f_equal; lia].
       - exists (e_depth x). rewrite Po, Pv. split; [lia|f_equal; lia]. }
     destruct Hpost as [d' [Hd' Hp]]. rewrite Hp in V.
@@ -229,13 +222,26 @@ Proof. cbn. apply Nat.eqb_refl. Qed.
 Lemma is_owner_other t u : u <> t -> is_owner (Some t) u = false.
 Proof. intros H. cbn. apply Nat.eqb_neq. congruence. Qed.
 
-(* one event of a thread whose remaining program is bracketed from the depth it holds *)
+Lemma brk_wbrk : forall p d, brk d p = true -> wbrk d p = true.
+Proof.
+  induction p as [|e p IH]; intros d H; cbn [brk wbrk] in *; [exact H|].
+  destruct e.
+  - apply IH. exact H.
+  - destruct d; [discriminate|]. apply IH. exact H.
+  - apply andb_true_iff in H. apply IH. apply H.
+  - apply andb_true_iff in H. destruct H as [H1 H2]. rewrite H1. apply IH. exact H2.
+Qed.
+
+(* one event of a thread whose remaining program is disciplined ([wbrk]) from the depth it holds;
+   if it is even bracketed ([brk]: reads inside as well) it stays so, and its Reads are owner's reads *)
 Lemma fire_spec o d v t e r :
   lock_ok (o, d, v) ->
-  brk (heldL (o, d, v) t) (e :: r) = true ->
+  wbrk (heldL (o, d, v) t) (e :: r) = true ->
   (fire o d v t e = None /\ e = EAcq /\ exists u, o = Some u /\ u <> t) \/
   (fire o d v t e = Some (post (E t e v o d)) /\ ok_entry (E t e v o d) /\
-   brk (heldL (post (E t e v o d)) t) r = true /\
+   wbrk (heldL (post (E t e v o d)) t) r = true /\
+   (brk (heldL (o, d, v) t) (e :: r) = true ->
+      brk (heldL (post (E t e v o d)) t) r = true /\ (e = ERead -> o = Some t)) /\
    (forall u, u <> t -> heldL (post (E t e v o d)) u = heldL (o, d, v) u) /\
    nsec (heldL (o, d, v) t) (e :: r)
      = (if is_oacqb t (E t e v o d) then 1 else 0) + nsec (heldL (post (E t e v o d)) t) r).
@@ -244,48 +250,53 @@ Proof.
   - (* Acq *)
     destruct o as [u|].
     + destruct (Nat.eq_dec u t) as [->|Ne].
-      * right. cbn [lock_ok] in LK. rewrite is_owner_self in B. cbn [brk] in B.
+      * right. cbn [lock_ok] in LK. rewrite is_owner_self in B. cbn [wbrk] in B.
         unfold post, ok_entry, is_oacqb. cbn [fire e_ev e_tid e_depth e_ver e_owner heldL].
-        rewrite Nat.eqb_refl, is_owner_self. refine (conj eq_refl (conj _ (conj B (conj _ _)))).
+        rewrite Nat.eqb_refl, is_owner_self. refine (conj eq_refl (conj _ (conj B (conj _ (conj _ _))))).
         -- right. auto.
+        -- cbn [brk]. intros H. split; [exact H|discriminate].
         -- intros u Hu. rewrite (is_owner_other t u Hu). reflexivity.
         -- cbn [nsec andb]. destruct d; [lia|]. rewrite andb_false_r. reflexivity.
       * left. cbn [fire]. apply Nat.eqb_neq in Ne. rewrite Ne. refine (conj eq_refl (conj eq_refl _)).
         exists u. split; [reflexivity|]. apply Nat.eqb_neq. exact Ne.
-    + right. cbn [lock_ok] in LK. subst d. cbn [is_owner brk] in B.
+    + right. cbn [lock_ok] in LK. subst d. cbn [is_owner wbrk] in B.
       unfold post, ok_entry, is_oacqb. cbn [fire e_ev e_tid e_depth e_ver e_owner heldL].
-      rewrite is_owner_self. refine (conj eq_refl (conj _ (conj B (conj _ _)))).
+      rewrite is_owner_self. refine (conj eq_refl (conj _ (conj B (conj _ (conj _ _))))).
       * left. auto.
+      * cbn [is_owner brk]. intros H. split; [exact H|discriminate].
       * intros u Hu. rewrite (is_owner_other t u Hu). reflexivity.
       * cbn [is_owner nsec ev_eqb]. rewrite Nat.eqb_refl. reflexivity.
   - (* Rel *)
-    right. cbn [brk] in B. destruct (is_owner o t) eqn:O; [|discriminate].
+    right. cbn [wbrk] in B. destruct (is_owner o t) eqn:O; [|discriminate].
     apply is_owner_true in O. subst o. cbn [lock_ok] in LK.
     destruct d as [|h]; [discriminate|].
     unfold post, ok_entry, is_oacqb. cbn [fire e_ev e_tid e_depth e_ver e_owner].
     rewrite is_owner_self. cbn [heldL]. rewrite is_owner_self.
     destruct h as [|h].
-    + refine (conj eq_refl (conj (conj eq_refl LK) (conj B (conj _ _)))).
+    + refine (conj eq_refl (conj (conj eq_refl LK) (conj B (conj _ (conj _ _))))).
+      * cbn [brk heldL is_owner]. intros H. split; [exact H|discriminate].
       * intros u Hu. cbn [heldL]. rewrite (is_owner_other t u Hu). reflexivity.
       * cbn [nsec pred ev_eqb heldL]. rewrite andb_false_r. reflexivity.
     + cbn [heldL]. rewrite is_owner_self.
-      refine (conj eq_refl (conj (conj eq_refl LK) (conj B (conj _ _)))).
+      refine (conj eq_refl (conj (conj eq_refl LK) (conj B (conj _ (conj _ _))))).
+      * cbn [brk]. intros H. split; [exact H|discriminate].
       * intros u Hu. rewrite (is_owner_other t u Hu). reflexivity.
       * cbn [nsec pred ev_eqb]. rewrite andb_false_r. reflexivity.
-  - (* Read *)
-    right. cbn [brk] in B. apply andb_true_iff in B. destruct B as [B1 B2].
-    destruct (is_owner o t) eqn:O; [|discriminate].
-    pose proof (is_owner_true _ _ O) as Eo. subst o. cbn [lock_ok] in LK.
-    unfold post, ok_entry, is_oacqb. cbn [fire e_ev e_tid e_depth e_ver e_owner heldL].
-    rewrite O. refine (conj eq_refl (conj (conj eq_refl LK) (conj B2 (conj _ _)))).
+  - (* Read: anybody, any time *)
+    right. cbn [wbrk] in B.
+    unfold post, ok_entry, is_oacqb, pre. cbn [fire e_ev e_tid e_depth e_ver e_owner heldL].
+    refine (conj eq_refl (conj LK (conj B (conj _ (conj _ _))))).
+    + cbn [brk]. intros H. apply andb_true_iff in H. destruct H as [H1 H2]. split; [exact H2|].
+      intros _. destruct (is_owner o t) eqn:O; [apply is_owner_true; exact O|discriminate].
     + intros u Hu. reflexivity.
     + cbn [nsec ev_eqb]. rewrite andb_false_r. reflexivity.
   - (* Write *)
-    right. cbn [brk] in B. apply andb_true_iff in B. destruct B as [B1 B2].
+    right. cbn [wbrk] in B. apply andb_true_iff in B. destruct B as [B1 B2].
     destruct (is_owner o t) eqn:O; [|discriminate].
     pose proof (is_owner_true _ _ O) as Eo. subst o. cbn [lock_ok] in LK.
     unfold post, ok_entry, is_oacqb. cbn [fire e_ev e_tid e_depth e_ver e_owner heldL].
-    rewrite O. refine (conj eq_refl (conj (conj eq_refl LK) (conj B2 (conj _ _)))).
+    rewrite O. refine (conj eq_refl (conj (conj eq_refl LK) (conj B2 (conj _ (conj _ _))))).
+    + cbn [brk]. intros H. apply andb_true_iff in H. split; [apply H|discriminate].
     + intros u Hu. reflexivity.
     + cbn [nsec ev_eqb]. rewrite andb_false_r. reflexivity.
 Qed.
@@ -293,7 +304,10 @@ Qed.
 Record inv (ps : list prog) (s : st) : Prop := {
   i_len : length (progs s) = length ps;
   i_trace : vtrace (None, 0, 0) (hist s) (owner s, depth s, ver s);
-  i_brk : forall t, brk (held s t) (prog_of s t) = true;
+  i_wbrk : forall t, wbrk (held s t) (prog_of s t) = true;
+  i_brk : forall t, bracketed (nth t ps []) = true -> brk (held s t) (prog_of s t) = true;
+  i_own : forall e, In e (hist s) -> bracketed (nth (e_tid e) ps []) = true -> e_ev e = ERead ->
+                    e_owner e = Some (e_tid e);
   i_proj : forall t, proj t (hist s) ++ prog_of s t = nth t ps [];
   i_nsec : forall t, length (filter (is_oacqb t) (hist s)) + nsec (held s t) (prog_of s t) = nsec 0 (nth t ps [])
 }.
@@ -301,13 +315,18 @@ Record inv (ps : list prog) (s : st) : Prop := {
 Lemma inv_lock_ok ps s : inv ps s -> lock_ok (owner s, depth s, ver s).
 Proof. intros I. apply (vtrace_lock_ok (None, 0, 0) (hist s)); [reflexivity|apply (i_trace _ _ I)]. Qed.
 
-Lemma inv_init ps : Forall (fun p => bracketed p = true) ps -> inv ps (init ps).
+(* every thread keeps the writers' discipline; some may be bracketed *)
+Definition all_disciplined (ps : list prog) : Prop := Forall (fun p => disciplined p = true) ps.
+
+Lemma inv_init ps : all_disciplined ps -> inv ps (init ps).
 Proof.
   intros F. constructor; cbn.
   - reflexivity.
   - reflexivity.
   - intros t. unfold held, prog_of. cbn. destruct (nth_in_or_default t ps []) as [H|H]; [|rewrite H; reflexivity].
-    rewrite Forall_forall in F. apply F. exact H.
+    unfold all_disciplined in F. rewrite Forall_forall in F. apply F. exact H.
+  - intros t H. exact H.
+  - intros e [].
   - intros t. reflexivity.
   - intros t. reflexivity.
 Qed.
@@ -326,8 +345,8 @@ Proof.
   intros I. unfold step. destruct (next s t) as [[e r]|] eqn:N; [|exact I].
   destruct (next_spec _ _ _ _ N) as [Pt Lt].
   pose proof (inv_lock_ok _ _ I) as LK.
-  pose proof (i_brk _ _ I t) as B. rewrite Pt in B.
-  destruct (fire_spec (owner s) (depth s) (ver s) t e r LK B) as [[F _]|[F [K [B' [HO NS]]]]].
+  pose proof (i_wbrk _ _ I t) as B. rewrite Pt in B.
+  destruct (fire_spec (owner s) (depth s) (ver s) t e r LK B) as [[F _]|[F [K [B' [BR [HO NS]]]]]].
   - rewrite F. exact I.
   - rewrite F. remember (E t e (ver s) (owner s) (depth s)) as en eqn:Een.
     destruct (post en) as [[o' d'] v'] eqn:Ep.
@@ -342,7 +361,15 @@ Proof.
     + rewrite Hh. unfold adv. cbn [owner depth ver]. rewrite <- Ep. apply vtrace_snoc; [|exact K].
       rewrite Een. unfold pre. cbn. apply (i_trace _ _ I).
     + intros u. rewrite Hp. change (held (adv s t e r o' d' v') u) with (heldL (o', d', v') u).
-      destruct (Nat.eq_dec u t) as [->|Ne]; [exact B'|]. rewrite (HO u Ne). apply (i_brk _ _ I u).
+      destruct (Nat.eq_dec u t) as [->|Ne]; [exact B'|]. rewrite (HO u Ne). apply (i_wbrk _ _ I u).
+    + intros u Hu. rewrite Hp. change (held (adv s t e r o' d' v') u) with (heldL (o', d', v') u).
+      destruct (Nat.eq_dec u t) as [->|Ne].
+      * apply BR. pose proof (i_brk _ _ I t Hu) as Bt. rewrite Pt in Bt. exact Bt.
+      * rewrite (HO u Ne). apply (i_brk _ _ I u Hu).
+    + intros x Hx Hb Hr. rewrite Hh in Hx. apply in_app_or in Hx. destruct Hx as [Hx|[<-|[]]].
+      * apply (i_own _ _ I x Hx Hb Hr).
+      * rewrite Een in Hb, Hr |- *. cbn [e_tid e_ev e_owner] in *.
+        pose proof (i_brk _ _ I t Hb) as Bt. rewrite Pt in Bt. apply (BR Bt). exact Hr.
     + intros u. rewrite Hh, Hp, proj_app. rewrite <- (i_proj _ _ I u).
       unfold proj at 2. cbn [filter]. rewrite Een at 1. cbn [e_tid].
       destruct (Nat.eq_dec u t) as [->|Ne].
@@ -365,7 +392,7 @@ Proof.
   apply IH. apply inv_step. exact I.
 Qed.
 
-Lemma inv_reach ps sched : Forall (fun p => bracketed p = true) ps -> inv ps (run sched (init ps)).
+Lemma inv_reach ps sched : all_disciplined ps -> inv ps (run sched (init ps)).
 Proof. intros F. apply inv_run. apply inv_init. exact F. Qed.
 
 (* ------------------------------------------------------------------ *)
@@ -373,8 +400,14 @@ Proof. intros F. apply inv_run. apply inv_init. exact F. Qed.
 (* ------------------------------------------------------------------ *)
 Definition all_bracketed (ps : list prog) : Prop := Forall (fun p => bracketed p = true) ps.
 
+Lemma all_bracketed_disciplined ps : all_bracketed ps -> all_disciplined ps.
+Proof.
+  unfold all_bracketed, all_disciplined. intros F. rewrite Forall_forall in *. intros p Hp.
+  apply brk_wbrk. apply F. exact Hp.
+Qed.
+
 (* the events a thread executed, in order, followed by what it still has to do, are its program *)
-Theorem trace_is_program ps sched t : all_bracketed ps ->
+Theorem trace_is_program ps sched t : all_disciplined ps ->
   proj t (hist (run sched (init ps))) ++ prog_of (run sched (init ps)) t = nth t ps [].
 Proof. intros F. apply (i_proj _ _ (inv_reach ps sched F)). Qed.
 
@@ -383,31 +416,39 @@ Proof.
   intros H T. unfold proj. apply in_map. apply filter_In. split; [exact H|]. apply Nat.eqb_eq. exact T.
 Qed.
 
-Lemma thread_events ps sched t x : all_bracketed ps ->
+Lemma thread_events ps sched t x : all_disciplined ps ->
   In x (hist (run sched (init ps))) -> e_tid x = t -> In (e_ev x) (nth t ps []).
 Proof.
   intros F H T. rewrite <- (trace_is_program ps sched t F). apply in_or_app. left. apply proj_in; assumption.
 Qed.
 
-(* T1: every Read / Write / Rel is executed by the owner of the lock; every Acq finds it free or its own *)
-Theorem events_under_lock ps sched e : all_bracketed ps ->
+(* T1: every Write / Rel is executed by the owner of the lock; every Acq finds it free or its own;
+   every Read of a BRACKETED thread (a snapshot operation) is executed by the owner *)
+Theorem events_under_lock ps sched e : all_disciplined ps ->
   In e (hist (run sched (init ps))) ->
-  (e_ev e <> EAcq -> e_owner e = Some (e_tid e) /\ 0 < e_depth e) /\
-  (e_ev e = EAcq -> (e_owner e = None /\ e_depth e = 0) \/ (e_owner e = Some (e_tid e) /\ 0 < e_depth e)).
+  (e_ev e = EWrite \/ e_ev e = ERel -> e_owner e = Some (e_tid e) /\ 0 < e_depth e) /\
+  (e_ev e = EAcq -> (e_owner e = None /\ e_depth e = 0) \/ (e_owner e = Some (e_tid e) /\ 0 < e_depth e)) /\
+  (e_ev e = ERead -> bracketed (nth (e_tid e) ps []) = true -> e_owner e = Some (e_tid e) /\ 0 < e_depth e).
 Proof.
-  intros F H. pose proof (vtrace_ok_entries _ _ _ (i_trace _ _ (inv_reach ps sched F))) as A.
+  intros F H. pose proof (inv_reach ps sched F) as I.
+  pose proof (vtrace_ok_entries _ _ _ (i_trace _ _ I)) as A.
   rewrite Forall_forall in A. specialize (A e H). unfold ok_entry in A.
-  destruct (e_ev e); split; intros C; try congruence; exact A.
+  split; [|split].
+  - intros [C|C]; rewrite C in A; exact A.
+  - intros C. rewrite C in A. exact A.
+  - intros C Hb. pose proof (i_own _ _ I e H Hb C) as O. split; [exact O|].
+    rewrite C in A. unfold lock_ok, pre in A. rewrite O in A. exact A.
 Qed.
 
-(* T2: between an outermost acquisition of t and its next outermost release, every executed
-   event is t's (so: no Write of another thread), and the version moves by t's Writes only *)
-Theorem section_exclusive ps sched t l1 a l2 e l3 : all_bracketed ps ->
+(* T2: between an outermost acquisition of t and its next outermost release the lock is t's:
+   every executed event other than a Read is t's own (so: no Write of another thread), and the
+   version moves by t's Writes only *)
+Theorem section_exclusive ps sched t l1 a l2 e l3 : all_disciplined ps ->
   hist (run sched (init ps)) = l1 ++ a :: l2 ++ e :: l3 ->
   is_oacq t a -> (forall x, In x l2 -> ~ is_orel t x) ->
   e_owner a = None /\
-  (forall x, In x l2 -> e_tid x = t /\ e_owner x = Some t) /\
-  e_tid e = t /\ e_owner e = Some t /\ e_ver e = e_ver a + wcount l2.
+  (forall x, In x l2 -> e_owner x = Some t /\ (e_ev x <> ERead -> e_tid x = t)) /\
+  e_owner e = Some t /\ (e_ev e <> ERead -> e_tid e = t) /\ e_ver e = e_ver a + wcount l2.
 Proof.
   intros F H [At [Ae Ao]] NR. pose proof (i_trace _ _ (inv_reach ps sched F)) as V. rewrite H in V.
   apply vtrace_app in V. destruct V as [m [_ V]]. cbn [vtrace] in V. destruct V as [_ [_ V]].
@@ -432,7 +473,7 @@ Qed.
 
 (* T3: a thread whose program has no Write sees, at every event of a critical section, the
    version it found when it opened the section - and the lock was free at that moment *)
-Theorem section_one_version ps sched t l1 a l2 e l3 : all_bracketed ps ->
+Theorem section_one_version ps sched t l1 a l2 e l3 : all_disciplined ps ->
   writes (nth t ps []) = false ->
   hist (run sched (init ps)) = l1 ++ a :: l2 ++ e :: l3 ->
   is_oacq t a -> (forall x, In x l2 -> ~ is_orel t x) ->
@@ -442,11 +483,11 @@ Proof.
   rewrite wcount_zero in I5; [rewrite Nat.add_0_r in I5; auto|].
   intros x Hx C. apply (writes_false _ W). rewrite <- C. apply (thread_events ps sched t x F).
   - rewrite H. apply in_or_app. right. right. apply in_or_app. left. exact Hx.
-  - apply I1. exact Hx.
+  - apply I1; [exact Hx|congruence].
 Qed.
 
 (* every event executed while t owns the lock lies in a section that t opened when the lock was free *)
-Theorem owned_in_section ps sched t l0 e l3 : all_bracketed ps ->
+Theorem owned_in_section ps sched t l0 e l3 : all_disciplined ps ->
   hist (run sched (init ps)) = l0 ++ e :: l3 -> e_owner e = Some t ->
   exists l1 a l2, l0 = l1 ++ a :: l2 /\ is_oacq t a /\ forall x, In x l2 -> ~ is_orel t x.
 Proof.
@@ -471,11 +512,11 @@ Proof.
 Qed.
 
 (* the number of sections a thread has opened is bounded by the static count of its program *)
-Theorem sections_bounded ps sched t : all_bracketed ps ->
+Theorem sections_bounded ps sched t : all_disciplined ps ->
   length (filter (is_oacqb t) (hist (run sched (init ps)))) <= nsec 0 (nth t ps []).
 Proof. intros F. pose proof (i_nsec _ _ (inv_reach ps sched F) t). lia. Qed.
 
-Theorem one_section_unique ps sched t l1 a l2 : all_bracketed ps ->
+Theorem one_section_unique ps sched t l1 a l2 : all_disciplined ps ->
   one_section (nth t ps []) = true ->
   hist (run sched (init ps)) = l1 ++ a :: l2 -> is_oacq t a ->
   forall x, In x (l1 ++ l2) -> ~ is_oacq t x.
@@ -488,23 +529,24 @@ Proof.
   - rewrite (filter_length_zero (is_oacqb t) l2) in C; [discriminate|lia|exact Hx].
 Qed.
 
-(* T3 for a whole snapshot operation (no Write, one outermost section): ALL its reads see ONE
+(* T3 for a whole snapshot operation (bracketed, no Write, one outermost section) among threads
+   that only keep the writers' discipline: ALL its reads are made as owner of the lock and see ONE
    version, the version of the moment at which it found the lock free and took it *)
-Theorem snapshot_one_version ps sched t e1 : all_bracketed ps ->
-  writes (nth t ps []) = false -> one_section (nth t ps []) = true ->
+Theorem snapshot_one_version ps sched t e1 : all_disciplined ps ->
+  bracketed (nth t ps []) = true -> writes (nth t ps []) = false -> one_section (nth t ps []) = true ->
   In e1 (hist (run sched (init ps))) -> e_tid e1 = t -> e_ev e1 = ERead ->
   exists a, In a (hist (run sched (init ps))) /\ is_oacq t a /\ e_owner a = None /\
     forall e2, In e2 (hist (run sched (init ps))) -> e_tid e2 = t -> e_ev e2 = ERead ->
       e_owner e2 = Some t /\ e_ver e2 = e_ver a.
 Proof.
-  intros F W O H1 T1 R1.
+  intros F Bt W O H1 T1 R1.
   assert (K : forall e, In e (hist (run sched (init ps))) -> e_tid e = t -> e_ev e = ERead ->
             exists l1 a l2 l3, hist (run sched (init ps)) = l1 ++ a :: l2 ++ e :: l3 /\ is_oacq t a /\
                                e_ver e = e_ver a /\ e_owner e = Some t).
   { intros e He Te Re. destruct (in_split _ _ He) as [l0 [l3 Hs]].
-    destruct (events_under_lock ps sched e F He) as [Ow _].
-    destruct Ow as [Ow _]; [congruence|]. rewrite Te in Ow.
-    destruct (owned_in_section ps sched t l0 e l3 F Hs Ow) as [l1 [a [l2 [-> [A NR]]]]].
+    destruct (events_under_lock ps sched e F He) as [_ [_ Ow]].
+    rewrite Te in Ow. destruct (Ow Re Bt) as [Ow' _].
+    destruct (owned_in_section ps sched t l0 e l3 F Hs Ow') as [l1 [a [l2 [-> [A NR]]]]].
     rewrite <- app_assoc in Hs. cbn [app] in Hs.
     destruct (section_one_version ps sched t l1 a l2 e l3 F W Hs A NR) as [V [_ _]].
     exists l1, a, l2, l3. auto. }
@@ -551,7 +593,7 @@ Qed.
 (* the owner holds the lock only while it still has something to do ... *)
 Lemma owner_unfinished ps s t : inv ps s -> owner s = Some t -> prog_of s t <> [].
 Proof.
-  intros I O C. pose proof (i_brk _ _ I t) as B. pose proof (inv_lock_ok _ _ I) as LK.
+  intros I O C. pose proof (i_wbrk _ _ I t) as B. pose proof (inv_lock_ok _ _ I) as LK.
   unfold held in B. rewrite O, is_owner_self, C in B. rewrite O in LK. cbn in LK, B.
   apply Nat.eqb_eq in B. lia.
 Qed.
@@ -642,7 +684,7 @@ Qed.
 Lemma run_app a b s : run (a ++ b) s = run b (run a s).
 Proof. unfold run. apply fold_left_app. Qed.
 
-Theorem every_schedule_extends_to_completion ps sched : all_bracketed ps ->
+Theorem every_schedule_extends_to_completion ps sched : all_disciplined ps ->
   exists more, finished (run (sched ++ more) (init ps)) = true /\
                owner (run (sched ++ more) (init ps)) = None /\ depth (run (sched ++ more) (init ps)) = 0.
 Proof.
